@@ -12,7 +12,9 @@ def enc_content(c):
     if isinstance(c, bytes):
         return {'t': 'bytes', 'v': list(c)}
     if isinstance(c, bool):
-        raise TypeError('bool content is not generated')
+        # not a documented content type, but an int for Python: only used where the OUTCOME is compared with the outcome of the same call
+        # in another history (C15: 1 == True and 0 == False must not be confused by a memo)
+        return {'t': 'bool', 'v': int(c)}
     if isinstance(c, int):
         return {'t': 'int', 'v': str(c)}
     if isinstance(c, str):
@@ -31,6 +33,8 @@ def dec_content(d):
         return bytes(d['v'])
     if t == 'int':
         return int(d['v'])
+    if t == 'bool':
+        return bool(d['v'])
     if t == 'str':
         return ''.join(chr(x) for x in d['v'])
     if t == 'tuple':
@@ -43,6 +47,27 @@ MODE_CONST = {1: 'numeric', 2: 'alphanumeric', 4: 'byte', 8: 'kanji', 13: 'hanzi
 
 def call(api, content, **kw):
     return {'api': api, 'content': enc_content(content), 'kw': kw}
+
+
+CONTAINERS = ('tuple', 'gen', 'iter', 'map')
+
+
+def in_container(c, kind):
+    """the same call with the list of parts handed over as a tuple / generator / list iterator / map object (one-shot iterables)"""
+    assert c['content']['t'] == 'list' and kind in CONTAINERS
+    return dict(c, container=kind)
+
+
+def _containerise(content, kind):
+    if kind == 'tuple':
+        return tuple(content)
+    if kind == 'gen':
+        return (p for p in content)
+    if kind == 'iter':
+        return iter(content)
+    if kind == 'map':
+        return map(lambda p: p, content)
+    return content
 
 
 # ------------------------------------------------------------------ abstraction of the arguments
@@ -150,7 +175,7 @@ def _alarm(signum, frame):
 def execute(c, time_limit=120):
     """Run one call against segno from /repo. Returns (outcome, result-or-None, list of results for sequences)."""
     segno = common.use_repo()
-    content = dec_content(c['content'])
+    content = _containerise(dec_content(c['content']), c.get('container'))
     fn = getattr(segno, c['api'])
     old = signal.signal(signal.SIGALRM, _alarm)
     signal.alarm(time_limit)
